@@ -49,7 +49,7 @@ func ruleU7(c *Ctx, rule string) {
 	}
 	key := "UpdateAttributesFrom/kind-change-clears-content"
 	if test == nil {
-		r.Finding(rule, key, c.P.pos(fn.Pos()), "UpdateAttributesFrom no longer tests `n.Kind != other.Kind`: the children of the old kind are never dropped (or the anchor of this rule moved)")
+		r.Undecided(rule, key, c.P.pos(fn.Pos()), "UpdateAttributesFrom no longer tests `n.Kind != other.Kind`: the children of the old kind are never dropped (or the anchor of this rule moved)")
 		return
 	}
 	// the store n.Kind = other.Kind
@@ -188,7 +188,7 @@ func ruleA7(c *Ctx, rule string) {
 	}
 	key := "traverseMergeAnchor/alias-to-mapping"
 	if region == nil {
-		r.Finding(rule, key, c.P.pos(fn.Pos()), "traverseMergeAnchor no longer tests that the alias target is a mapping (or the anchor of this rule moved)")
+		r.Undecided(rule, key, c.P.pos(fn.Pos()), "traverseMergeAnchor no longer tests that the alias target is a mapping (or the anchor of this rule moved)")
 		return
 	}
 	bad := ""
